@@ -10,6 +10,7 @@ import (
 	"github.com/andydunstall/piko/pkg/log"
 
 	"verif/harness/core"
+	"verif/harness/gsim"
 	"verif/harness/props"
 )
 
@@ -32,14 +33,8 @@ func (nopWatcher) OnExpired(string)                {}
 
 func runSocketLeg(sh *core.Shard, a props.Args, packets, streams int) {
 	r := rand.New(rand.NewSource(a.CaseSeed(888_000 + a.Shard)))
-	sln, err := net.Listen("tcp", "127.0.0.1:0")
+	sln, pln, err := gsim.ListenPair()
 	if err != nil {
-		sh.Inconcl("socket leg: %v", err)
-		return
-	}
-	pln, err := net.ListenUDP("udp", &net.UDPAddr{IP: net.IPv4(127, 0, 0, 1), Port: sln.Addr().(*net.TCPAddr).Port})
-	if err != nil {
-		sln.Close()
 		sh.Inconcl("socket leg: %v", err)
 		return
 	}
